@@ -19,7 +19,7 @@ fn main() {
         "c04" => checks::c04::run(&args),
         "c05" => checks::c05::run(&args),
         "c06" => checks::c06::run(&args),
-        "c07" | "c07-worker" => checks::c07::run(&args),
+        "c07" | "c07-worker" | "c07-artifact" => checks::c07::run(&args),
         "c08" => checks::server_props::run(Which::C08, &args),
         "c10" => checks::c10::run(&args),
         "c11" => checks::c11::run(&args),
